@@ -116,7 +116,7 @@ def run(module, cfg, tag=None, mode="check", workers=None, simulate=None, depth=
     d = rundir(tag)
     with open(os.path.join(d, module + ".cfg"), "w") as f:
         f.write(cfg)
-    cmd = ["java", "-XX:+UseParallelGC", "-Xmx" + heap]
+    cmd = ["java", "-XX:+UseParallelGC", "-Xmx" + heap, "-Xss512m"]
     if dfs:
         cmd.append("-Dtlc2.tool.queue.IStateQueue=StateDeque")
     cmd += ["-cp", JAR, "tlc2.TLC", "-metadir", os.path.join(d, "states"), "-noGenerateSpecTE",
